@@ -1,6 +1,8 @@
 (* C27 model driver. stdin: "<id>\t(sess (inp stmt...) ...)" ; stdout: "<id>\t<incr> # <batch>"
-   stmt : (def <m> i|s <expr>) | (const <k> <expr>) | (decl <v> i|s <expr>) | (asg <v> <expr>) | (pr <expr>) | early
-   expr : (i <int>) | (s <id>) | (l <v>) | (k <id>) | p | (c <m> <expr>) | (add a b) | (mul a b) | (div a b)
+   stmt : (def <m> i|s <expr>) | (const <k> <expr>) | (decl <v> <texp> <expr>) | (asg <v> <expr>) | (pr <expr>) | early
+          | (td <a> <texp>) | (cls <c>)
+   texp : i | s | (a <alias>) | (o <class>)
+   expr : (i <int>) | (s <id>) | (l <v>) | (k <id>) | p | (c <m> <expr>) | (add a b) | (mul a b) | (div a b) | (new <class>)
    <incr>  : one entry per input, ';'-separated:  rej | ok:<v>,<v>... | err@<stmt>:<v>,... | crash@<stmt>:<v>,...
              (the extracted [incr true] = REPL with the fixes; with argument "found": [incr false])
    <batch> : one entry per ACCEPTED input k: the last segment of the extracted whole-program semantics
@@ -39,6 +41,14 @@ let z = Zio.z_of_string
 let n_ = Zio.n_of_string
 let ty_of_s = function "i" -> TInt | "s" -> TStr | _ -> failwith "ty"
 
+let texp_of (x : sx) : texp =
+  match x with
+  | A "i" -> XInt
+  | A "s" -> XStr
+  | L [ A "a"; A k ] -> XAlias (n_ k)
+  | L [ A "o"; A k ] -> XClass (n_ k)
+  | _ -> failwith "texp"
+
 let rec expr_of (x : sx) : expr =
   match x with
   | L [ A "i"; A k ] -> ELit (z k)
@@ -50,13 +60,16 @@ let rec expr_of (x : sx) : expr =
   | L [ A "add"; a; b ] -> EAdd (expr_of a, expr_of b)
   | L [ A "mul"; a; b ] -> EMul (expr_of a, expr_of b)
   | L [ A "div"; a; b ] -> EDiv (expr_of a, expr_of b)
+  | L [ A "new"; A k ] -> ENew (n_ k)
   | _ -> failwith "expr"
 
 let stmt_of (x : sx) : stmt =
   match x with
   | L [ A "def"; A m; A t; b ] -> SDef (n_ m, ty_of_s t, expr_of b)
   | L [ A "const"; A k; e ] -> SConst (n_ k, expr_of e)
-  | L [ A "decl"; A v; A t; e ] -> SDecl (n_ v, ty_of_s t, expr_of e)
+  | L [ A "decl"; A v; t; e ] -> SDecl (n_ v, texp_of t, expr_of e)
+  | L [ A "td"; A a; t ] -> STypedef (n_ a, texp_of t)
+  | L [ A "cls"; A c ] -> SClass (n_ c)
   | L [ A "asg"; A v; e ] -> SAssign (n_ v, expr_of e)
   | L [ A "pr"; e ] -> SPrint (expr_of e)
   | A "early" -> SEarly
@@ -68,6 +81,7 @@ let show_val = function
   | VInt k -> Zio.string_of_z k
   | VStr k -> "\"s" ^ Zio.string_of_n k ^ "\""
   | VNil -> "nil"
+  | VObj k -> "obj" ^ Zio.string_of_n k
 
 let show_res = function
   | Rejected -> "rej"
